@@ -56,11 +56,21 @@ def leaf(tag, text):
     return e
 
 
+def odd_name(rng, prefix=""):
+    """An undefined tag of an unusual shape: very short, as long as or longer than any defined tag (the longest is 23), digits, '_' and '.'."""
+    n = rng.choice([1, 2, 3, 23, 24, 31, 32, 33, 40, 64])
+    alphabet = rng.choice(["ABCDEFGHIJKLMNOPQRSTUVWXYZ", "ABCXYZ0123456789", "ABCXYZ_", "QZ9_"])
+    body = "".join(rng.choice(alphabet) for _ in range(n))
+    if body[0] in "0123456789_":
+        body = "Z" + body[1:]
+    return prefix + "ZZ" + body if not prefix else prefix + body
+
+
 def make_insertion(kind, rng, parent_elem, parent_cls, classes):
     """-> ET.Element to insert, or None when the kind is not applicable here."""
     decl = declared_tags(parent_cls) | RENAMED
     if kind == "unknown-data":
-        return leaf(rng.choice(["ZZUNKNOWN", "XMEMO2", "Q9", "NEWTAG"]), rng.choice(["text", "1", "a&b", "20200101"]))
+        return leaf(rng.choice(["ZZUNKNOWN", "XMEMO2", "Q9", "NEWTAG", odd_name(rng), odd_name(rng)]), rng.choice(["text", "1", "a&b", "20200101"]))
     if kind == "unknown-named-like-python-attribute":
         # an undeclared tag whose lower-cased name happens to be an attribute of the model class (list methods,
         # convenience properties, machinery): it is still just an unknown tag
@@ -74,9 +84,9 @@ def make_insertion(kind, rng, parent_elem, parent_cls, classes):
         e.append(leaf("CODE", "0"))
         return e
     if kind == "unknown-empty":
-        return ET.Element(rng.choice(["ZZEMPTY", "XAGG"]))
+        return ET.Element(rng.choice(["ZZEMPTY", "XAGG", odd_name(rng)]))
     if kind == "unknown-agg":
-        e = ET.Element("ZZAGG")
+        e = ET.Element(rng.choice(["ZZAGG", odd_name(rng)]))
         e.append(leaf("TRNUID", "1"))
         st = ET.SubElement(e, "STATUS")
         st.append(leaf("CODE", "0"))
@@ -86,7 +96,7 @@ def make_insertion(kind, rng, parent_elem, parent_cls, classes):
     if kind in ("unknown-agg-parent-children", "vendor-agg-parent-children"):
         if len(parent_elem) == 0:
             return None
-        e = ET.Element("ZZWRAP" if kind.startswith("unknown") else rng.choice(["INTU.EXT", "INTU.PENDING", "CHASE.X"]))
+        e = ET.Element(rng.choice(["ZZWRAP", odd_name(rng)]) if kind.startswith("unknown") else rng.choice(["INTU.EXT", "INTU.PENDING", "CHASE.X", odd_name(rng, "INTU.")]))
         for c in rng.sample(list(parent_elem), min(len(parent_elem), rng.randint(1, 3))):
             e.append(copy.deepcopy(c))
         return e
@@ -99,9 +109,9 @@ def make_insertion(kind, rng, parent_elem, parent_cls, classes):
                     continue
         return None
     if kind == "vendor-data":
-        return leaf(rng.choice(["INTU.BID", "INTU.USERID", "CHASE.MEMO", "A.B.C"]), rng.choice(["123", "x y"]))
+        return leaf(rng.choice(["INTU.BID", "INTU.USERID", "CHASE.MEMO", "A.B.C", odd_name(rng, "INTU.")]), rng.choice(["123", "x y"]))
     if kind == "vendor-agg":
-        e = ET.Element(rng.choice(["INTU.XX", "SCHWAB.INFO"]))
+        e = ET.Element(rng.choice(["INTU.XX", "SCHWAB.INFO", odd_name(rng, "INTU."), odd_name(rng, "X.")]))
         e.append(leaf("A", "1"))
         e.append(leaf("INTU.Y", "2"))
         sub = ET.SubElement(e, "CODE")
